@@ -122,3 +122,37 @@ func VH_C07_cell(L int, refSize int) {
 	zzvrt.Cover("ok-exotic", err == nil && c.cellType != OrdinaryCell)
 	zzvrt.ObserveBool("err", err != nil)
 }
+
+// Printing terminates: one inductive step of the expansion budget of Cell.ToString.  The budget
+// (65536 in ToString) is SYMBOLIC here: toStringImpl is run on a shared DAG (root -> a,a ; a -> leaf,leaf;
+// 7 nodes when unfolded) with any starting budget 0..maxb.  Whatever the budget, it never goes below
+// zero (a negative budget is never "== 0" again: unbounded expansion), every expanded cell costs one
+// unit, and the number of printed lines is bounded by the budget spent.
+func VH_C07_tostring_budget(maxb int) {
+	leaf := NewCell()
+	_ = leaf.WriteUint(0xab, 8)
+	a := NewCell()
+	_ = a.WriteUint(1, 4)
+	_ = a.AddRef(leaf)
+	_ = a.AddRef(leaf)
+	root := NewCell()
+	_ = root.AddRef(a)
+	_ = root.AddRef(a)
+	b := zzvrt.NondetInt("budget")
+	zzvrt.Assume(b >= 0 && b <= maxb)
+	budget := b
+	s := root.toStringImpl("", &budget)
+	lines := 0
+	for i := 0; i < len(s); i++ {
+		if s[i] == '\n' {
+			lines++
+		}
+	}
+	zzvrt.Assert("budget-never-negative", budget >= 0)
+	zzvrt.Assert("budget-only-decreases", budget <= b)
+	zzvrt.Assert("lines-bounded-by-budget-spent", lines <= 1+2*(b-budget))
+	zzvrt.Assert("whole-dag-when-budget-suffices", b < 7 || lines == 7)
+	zzvrt.Cover("budget-exhausted", budget == 0 && lines < 7)
+	zzvrt.ObserveInt("lines", lines)
+	zzvrt.ObserveInt("left", budget)
+}
